@@ -18,4 +18,9 @@ pub trait OutT {
     fn d_res_or(&self) -> Result<Option<&Tok>, Result<&Tok, Tok>>;
     fn d_poll_res(&self) -> Poll<Result<&Tok, Tok>>;
     fn d_opt_vec_res(&self) -> Option<Vec<Result<&Tok, Tok>>>;
+    fn l_ref<'s>(&'s self) -> &'s Tok;
+    fn l_opt<'s>(&'s self) -> Option<&'s Tok>;
+    fn l_res<'s>(&'s self) -> Result<&'s Tok, Tok>;
+    fn l_tup<'s>(&'s self) -> (&'s Tok, Tok);
+    fn l_vec_opt<'s>(&'s self) -> Vec<Option<&'s Tok>>;
 }
